@@ -232,6 +232,27 @@ def _is_reduce_padding(ctx, b, la, lc):
     return False
 
 
+def narrow_arithmetic(ctx, rule):
+    """R01.h: no addition / multiplication on integer types narrower than 32 bits on the reachable paths (a count of grams,
+    words or characters in such a type overflows for ordinary long inputs: panic in a checked build, wrap-around otherwise)"""
+    n = 0
+    for b in ctx.facts.fns():
+        if b.id not in _reach(ctx) or _skip_body(b):
+            continue
+        for bi, t in b.iter_terms():
+            if t["k"] != "assert" or t["msg"].get("kind") != "Overflow" or t["msg"].get("op") not in ("Add", "Mul", "Sub"):
+                continue
+            pa = t["msg"]["a"].get("copy") or t["msg"]["a"].get("move")
+            ty = (pa or {}).get("ty") or t["msg"]["a"].get("const", {}).get("ty", "")
+            if ty in ("u8", "u16", "i8", "i16"):
+                n += 1
+                ctx.fail(rule, "narrow:%s:%s" % (b.id, t["msg"].get("op")), where(b, bi), "`%s` arithmetic on `%s` in %s: counts of grams / "
+                         "words / characters exceed this range for ordinary long inputs" % (t["msg"].get("op"), ty, b.id),
+                         {"witness": "a title with 256 distinct grams searched by its full text"}, kind="S")
+    if n == 0:
+        ctx.ok(rule, "narrow-arithmetic", "-", "no checked arithmetic on 8/16-bit integers on the reachable paths", kind="S")
+
+
 def R19_bufs(ctx, b):
     sy = ctx.sym(b)
     from ..effects import field_chain
